@@ -234,7 +234,8 @@ def plan_c07(tier, seed):
 ROUTING_KINDS = ["fallback<leaf,leaf>", "fallback<fallback<leaf,leaf>,leaf>", "fallback<leaf,fallback<leaf,leaf>>",
                  "fallback<fallback<leaf,leaf>,fallback<leaf,leaf>>", "aligned<fallback<leaf,leaf>>", "tracked<fallback<fallback<leaf,leaf>,leaf>>",
                  "fallback<pool<node>/fixed,leaf>", "fallback<pool<array>/fixed,leaf>", "fallback<stack/fixed,leaf>",
-                 "fallback<coll<node,log2>/fixed,leaf>", "fallback<tracked<leaf>,leaf>", "segregator<threshold(32) leaf,leaf>"]
+                 "fallback<coll<node,log2>/fixed,leaf>", "fallback<tracked<leaf>,leaf>", "segregator<threshold(32) leaf,leaf>",
+                 "fallback<leaf-node-functions-only,leaf>", "fallback<reference<leaf>,reference<leaf>>", "fallback<any_reference<leaf>,reference<leaf>>"]
 SIBLING_KINDS = ["pool<node>", "pool<array>", "pool<small>", "coll<node,log2>", "coll<array,identity>", "stack", "iteration<2>", "mixed"]
 FORWARD_KINDS = ["adapter<leaf>", "adapter<leaf-min>", "reference<leaf>", "any_reference<leaf>", "any_reference<leaf-min>", "thread_safe<leaf>",
                  "aligned<leaf>", "aligned<leaf-min>", "tracked<leaf>", "tracked<leaf-min>", "segregator<threshold(64) leaf,leaf>",
@@ -256,7 +257,8 @@ def plan_c08(tier, seed):
         for k in ROUTING_KINDS:
             jobs += [Job("h_compose", cfg, "asan", "routing", k, c, ops=_scale(tier, 200, 400), cpu=_scale(tier, 40, 120)) for c in chunks(n, ck)]
     # try_deallocate of own memory through the history engines (refused-own clause)
-    jobs += pool_jobs(cfgs, ["walk"], n // 2, 250, ck) + coll_jobs(cfgs, ["walk"], n // 4, 250, ck)
+    jobs += pool_jobs(cfgs, ["walk"], n // 2, 250, ck) + coll_jobs(cfgs, ["walk"], n // 4, 250, ck) \
+        + stack_jobs(cfgs, ["walk", "phased"], n // 2, 250, ck, kinds=STACK_KINDS)
     return dict(jobs=jobs, level="exploration",
                 rule="(siblings) three allocators of one composable kind (pools, collections, stack, iteration, mixed) share one upstream that carves "
                      "their blocks back to back, with a static_allocator's storage placed exactly between two of the blocks (its first node starts one "
@@ -280,7 +282,8 @@ def plan_c09(tier, seed):
     for cfg in cfgs:
         for k in FORWARD_KINDS:
             jobs += [Job("h_compose", cfg, "asan", "forward", k, c, ops=_scale(tier, 200, 1000), cpu=300) for c in chunks(n, ck)]
-        for k in ("tracked<fallback<fallback<leaf,leaf>,leaf>>", "fallback<tracked<leaf>,leaf>", "aligned<fallback<leaf,leaf>>"):
+        for k in ("tracked<fallback<fallback<leaf,leaf>,leaf>>", "fallback<tracked<leaf>,leaf>", "aligned<fallback<leaf,leaf>>",
+                  "fallback<leaf-node-functions-only,leaf>", "fallback<reference<leaf>,reference<leaf>>", "fallback<any_reference<leaf>,reference<leaf>>"):
             jobs += [Job("h_compose", cfg, "asan", "routing", k, c, ops=_scale(tier, 200, 400), cpu=_scale(tier, 40, 120)) for c in chunks(n, ck)]
     return dict(jobs=jobs, level="exploration",
                 rule="case = (configuration, wrapper composition, index). 22 compositions of allocator_adapter / allocator_reference / "
@@ -319,6 +322,7 @@ def plan_c13(tier, seed):
             jobs += [Job("h_thread", cfg, "tsan", "real", k, c, ops=ops, cpu=900) for c in chunks(n, 3 if q else 6)]
         for k in STATELESS_KINDS:
             jobs += [Job("h_thread", cfg, "tsan", "stateless", k, c, ops=ops // 2, cpu=900) for c in chunks(n, 3 if q else 6)]
+            jobs += [Job("h_thread", cfg, "plain", "statelessexit", "stateless-exit/" + k, c, cpu=900) for c in chunks(_scale(tier, 4, 40), 4)]
     return dict(jobs=jobs, level="exploration",
                 rule="case = (configuration, storage policy x mutex type | real allocator | stateless allocator, sanitizer, index): 2..8 (thorough 16) "
                      "threads issue a seeded mix of every forwarding member of allocator_storage (throwing, composable, max_* queries) and the lock() "
@@ -477,6 +481,7 @@ def plan_c15(tier, seed):
     for cfg in cfgs:
         for k in ("heap_allocator", "malloc_allocator", "new_allocator", "virtual_memory_allocator"):
             jobs.append(Job("h_debug", cfg, "plain", "exitleak", "exit-leak/" + k, (0, _scale(tier, 9, 60)), cpu=120))
+            jobs.append(Job("h_thread", cfg, "plain", "statelessexit", "stateless-exit/" + k, (0, _scale(tier, 4, 24)), cpu=900))
     return dict(jobs=jobs, level="exploration",
                 rule=RULE_HISTORY % ("allocator_traits-level node and array allocations and releases (array element sizes different from node sizes), moves "
                                      "at seeded points, destruction with and without outstanding allocations; a recording leak handler is compared with "
@@ -572,7 +577,7 @@ def plan_c18(tier, seed):
     ck = _scale(tier, 40, 100)
     jobs += pool_jobs(cfgs, ["walk", "phased"], n, ops, ck) + coll_jobs(cfgs, ["walk"], n // 2, ops, ck) \
         + stack_jobs(cfgs, ["walk", "phased"], n, ops, ck, kinds=STACK_KINDS + ITER_KINDS + ["static_allocator"]) \
-        + fail_jobs(["rwd", "dbg"], tier)
+        + fail_jobs(["rwd", "dbg"], tier) + arena_jobs(cfgs, tier)
     plan = dict(jobs=jobs, level="exploration",
                 rule="(a) grid: one case = one node size of one pool type; for every node count of the tier's set (quick: counts <= 16, within 2 of a "
                      "multiple of 255, powers of two and a 2% seeded sample, node sizes 1..130; thorough: every count 1..2000 for every node size "
